@@ -78,6 +78,8 @@ def gen_single(rng, profile="general"):
     if case["eps"] > 0 and rng.random() < 0.5:
         case["data"]["flavor"] = "plain"
     case["biased_form"] = ["bool", "bool", "np.bool", "int"][int(rng.integers(0, 4))]
+    # integer hyper-parameters (W, K, limit, m, processors) as Python ints or NumPy integer scalars
+    case["int_form"] = ["int", "int", "int", "np.int64", "np.int32", "np.uint8"][int(rng.integers(0, 6))]
     if rng.random() < 0.15:
         # real multi-process pool; the first rounds' tasks are delayed so that they complete in reverse submission order
         K_ = case["K"]
